@@ -417,6 +417,62 @@ def signature_rule(chk):
                      "; ".join(f"default of `{p}` is {h if h is not None else 'gone'} (reference: {d})" for p, d, h in bad), loc(f, f.node), nontrivial=False)
     if files and n == 0:
         raise AnalysisError("SIG matched no function with defaults in the anchored files")
+    # a default that is one mutable object shared by every call (`maneuvers=[]`, `extras={}`) may only be read: once it is
+    # stored, handed on, returned or written to, what one call leaves in it is what the next call starts from (wave q:
+    # `CWHelper.coelliptic(..., maneuvers=[])` handed to the Orbit it builds)
+    for rel in files:
+        m = chk.repo.modules.get(rel)
+        if m is None:
+            continue
+        for f in m.all_funcs():
+            a = f.node.args
+            pos = a.posonlyargs + a.args
+            pairs = list(zip(pos[len(pos) - len(a.defaults):], a.defaults)) + [(x, d) for x, d in zip(a.kwonlyargs, a.kw_defaults) if d is not None]
+            for x, d in pairs:
+                mutable = isinstance(d, (ast.List, ast.Dict, ast.Set, ast.ListComp, ast.DictComp, ast.SetComp)) or \
+                    (isinstance(d, ast.Call) and isinstance(d.func, ast.Name) and d.func.id in ("list", "dict", "set", "bytearray"))
+                if not mutable:
+                    continue
+                uses = _escaping_uses(f.node, x.arg)
+                chk.inst("SIG", f"{rel}::{f.qualname}::mutable-default::{x.arg}", not uses,
+                         f"`{x.arg}={ast.unparse(d)}` is only read" if not uses else
+                         f"`{x.arg}={ast.unparse(d)}` is one object shared by every call, and the function lets it out or writes to it: " + "; ".join(uses[:3]),
+                         loc(f, f.node), nontrivial=False)
+
+
+_READ_METHODS = {"items", "keys", "values", "get", "index", "count", "copy"}
+
+
+def _escaping_uses(fnode, name):
+    """Uses of parameter `name` other than reading it: everything but `name.items()`-style reads, `name[k]` loads,
+    iteration, membership / truth tests and len()."""
+    parents = {}
+    for n in ast.walk(fnode):
+        for c in ast.iter_child_nodes(n):
+            parents[c] = n
+    out = []
+    for n in ast.walk(fnode):
+        if not (isinstance(n, ast.Name) and n.id == name):
+            continue
+        if isinstance(n.ctx, ast.Store):
+            continue        # rebinding the local name leaves the shared object alone
+        p = parents.get(n)
+        if isinstance(p, ast.Attribute) and p.value is n and p.attr in _READ_METHODS and isinstance(parents.get(p), ast.Call) and parents[p].func is p:
+            continue
+        if isinstance(p, ast.Subscript) and p.value is n and isinstance(p.ctx, ast.Load):
+            continue
+        if isinstance(p, (ast.For, ast.comprehension)) and p.iter is n:
+            continue
+        if isinstance(p, ast.Compare) or isinstance(p, (ast.If, ast.While, ast.IfExp, ast.BoolOp)) or (isinstance(p, ast.UnaryOp) and isinstance(p.op, ast.Not)):
+            continue
+        if isinstance(p, ast.Call) and isinstance(p.func, ast.Name) and p.func.id in ("len", "sorted", "list", "dict", "tuple", "set", "any", "all", "sum", "enumerate", "zip") and n in p.args:
+            continue
+        if isinstance(p, ast.keyword) and p.arg is None:
+            continue        # **name unpacks a copy
+        if isinstance(p, ast.Starred):
+            continue
+        out.append(f"`{ast.unparse(p)[:70]}` (line {n.lineno})")
+    return out
 
 
 def _literal_differs(ref_src, cur_src, f):
